@@ -154,6 +154,7 @@ package style
 // one registered under its own id, and no style is listed twice.
 //@ func (*StyleManager).GetAllStyles
 //@ props C05, C04, C13
+//@ appendfacts
 //@ requires sm != nil
 //@ modifies nothing
 //@ ensures cap(result) == 0 || freshArr(result)
